@@ -64,7 +64,7 @@ def loop_carried(fnode):
     return out
 
 
-def r1_translation(rep, src):
+def r1_translation(rep, src, tier='quick'):
     """globs_to_re interpreted on a basis of glob lists: every glob of up to three characters over representatives of
     the character classes the translation distinguishes ('*', '?', backslash, ordinary characters incl. regex
     metacharacters, '/', newline, a non-ASCII letter), and pairs of globs.  The pattern text it produces is turned
@@ -85,7 +85,7 @@ def r1_translation(rep, src):
     alpha = rx.alphabet('str')
     carried = loop_carried(f.node)
     cursor_like = {n for n in carried if n in ('i', 'n', 'idx', 'pos', 'chars', 'it', 'buf', 'out', 'parts', 'pieces', 'first', 'sep')}
-    depth = 3 if carried <= cursor_like else 4
+    depth = (3 if carried <= cursor_like else 4) + (1 if tier == 'thorough' else 0)
     reps_other = ['a', '.', '[', '/', '\n', '\u00e9', '|', ')', '$']
     units = ['*', '?', '\\'] + reps_other[:3]
     compiled = {}
@@ -320,7 +320,7 @@ def check(src, rep, tier):
     rep.need('C16.R2', 3)
     rep.need('C16.R3', 1)
     rep.need('C16.R4', 5)
-    rep.guard('C16.R1', r1_translation, src)
+    rep.guard('C16.R1', r1_translation, src, tier)
     rep.guard('C16.R2', r2_matches, src)
     rep.guard('C16.R3', r3_cache, src)
     rep.guard('C16.R4', r4_last_match, src)
